@@ -59,4 +59,28 @@ def emit():
     zero = inspect.signature(kcmp.float_iszero).parameters['threshold'].default
     L.append('(* default thresholds of is_distance_within_threshold (translation, rotation) and float_iszero *)')
     L.append('Definition pose_thresholds : list Q := ' + kv.clist(kv.cq(float(t)) for t in list(thr) + [zero]) + '.')
+    # the error branch: which (helper, class of the object passed on both sides) raise TypeError; which Kapture setters
+    # refuse an object of which other part's class (observed by calling them)
+    helper_rejects, setter_rejects = [], []
+    for h in c08.TYPED_HELPERS:
+        for q in c08.parts():
+            obj = getattr(full, q)
+            try:
+                c08.helper_of(h)(obj, obj)
+            except TypeError:
+                helper_rejects.append((h, q))
+            except Exception:
+                pass
+            try:
+                setattr(kapture.Kapture(), h, obj)
+            except TypeError:
+                setter_rejects.append((h, q))
+            except Exception:
+                pass
+    L.append('(* (typed helper h, part q): equal_<h>(d.q, d.q) raises TypeError *)')
+    L.append('Definition helper_rejects : list (string * string) := ' +
+             kv.clist(kv.cpair(kv.cstr(h), kv.cstr(q)) for h, q in helper_rejects) + '.')
+    L.append('(* (attribute h of a typed helper, part q): Kapture().h = d.q raises TypeError *)')
+    L.append('Definition setter_rejects : list (string * string) := ' +
+             kv.clist(kv.cpair(kv.cstr(h), kv.cstr(q)) for h, q in setter_rejects) + '.')
     return L
